@@ -173,4 +173,16 @@ PROPS = {
             {"name": "concurrent", "pkg": "c09", "run": "^TestC09Concurrent$", "race": True, "shards": {"quick": 5, "thorough": 15}, "timeout": {"quick": 400, "thorough": 3000}},
         ],
     },
+    "C12": {
+        "level": "fault_enumeration",
+        "level_text": "For K PRNG histories of Publish (three event types), SubscribeWithReplay (three ids, two sharing a type) and Restart on memory (as both stores), memory with a separate subscription store (streaming and paged), SQLite (unbatched, batch 2) and durable-streams with a memory subscription store: the fault-free run, then for EVERY store operation k of that run (append, read, stream open, every yield, stream end, save, load): a crash after k (dead mode: later operations are no-ops, later callbacks did not happen; restart on the same durable state), a failure of k, and - for every k inside a running SubscribeWithReplay - a complete foreign Publish interleaved at k. Each run ends with a fault-free restart and drain. Oracle on one timeline of appends / deliveries / saves: no persisted event of the subscribed type is lost, exactly once and in log order without faults, first occurrences in log order, a redelivery only of an event whose position had not been saved successfully before, the saved offset never moves backwards.",
+        "level_note": "Crash = the durable state a process death right after operation k leaves behind (the harness lets the call unwind, drops the bus and builds a new one on the same stores); torn writes inside one store operation are C14's subject. Events whose append failed are not part of the log. Concurrent live publishers other than the single interleaved Publish are not generated.",
+        "technique": "runtime monitoring with fault injection: crash / failure / interleaving enumerated at every store operation through store wrappers, offline exactly-once / order / monotonic-offset checker over the recorded timeline",
+        "design_ref": "DESIGN.md section 5 C12, section 4.5",
+        "rule": "distinct = (store, history shape, fault kind, operation index); non-trivial = the history contains a restart, or the faulted operation is a save or an append, or it is an interleaving",
+        "assumptions": ["store wrappers keep the optional-interface shape of the wrapped store, so the bus takes the same code paths"],
+        "parts": [
+            {"name": "resume", "pkg": "c12", "run": "^TestC12$", "shards": {"quick": 6, "thorough": 16}, "timeout": {"quick": 400, "thorough": 3000}},
+        ],
+    },
 }
